@@ -460,7 +460,7 @@ pub fn run_program(prog: Program, opts: &Opts, plan: noise::Plan) -> RunResult {
         if ctx.prog.profile == "C15" && ctx.prog.panics && !(0..ctx.prog.ops.len()).any(|i| ctx.recs[i].outcome.load(ORD) == 5) {
             // only a try_sync closure can legitimately not have run (Busy); anything else means the harness lost track
             if ctx.prog.ops.iter().any(|o| o.kind == Kind::TrySync && o.body.contains(&Step::Panic)) { break; }
-            eprintln!("HARNESS BUG: phase 0 of a panic scenario is complete but no operation is recorded as panicked"); std::process::exit(2);
+            outcome = Outcome::Inconclusive("phase 0 of a panic scenario is complete but no operation is recorded as panicked".into()); break;
         }
         if ph.wait_pool_exit {
             // "once the panic has finished unwinding": every pool thread that ran a panicking body has exited
